@@ -1,11 +1,7 @@
 import Ntrip.Proofs.MsmAttach
 import Ntrip.Proofs.SegmentRefine
 import Ntrip.Proofs.SegmentSpec
-import Ntrip.Generated.Skeletons
 import Ntrip.Properties.C05
-import Ntrip.Guards.Msm
-import Ntrip.Guards.Base
-import Ntrip.Guards.Framing
 /-!
 # C07 — no input can crash or hang framing, decoding or display
 
@@ -84,66 +80,11 @@ theorem too_many_cells_is_error (bs : Bytes) (h : MsmHeader) (pos : Nat)
   obtain ⟨_, h2, _, h4⟩ := (getMSMHeader_safe bs).2 h pos hh
   exact ⟨h4, h2⟩
 
-/-- Tie T1: the expressions of the display code that can panic by themselves, regenerated
-    from the source; each is safe for the reason given. -/
-theorem display_whitelist :
-    -- comma-ok type assertions on `message.Readable`
-    Gen.display_handler_Message_String = some ["assert message.Readable", "deref *msm4Message.Message",
-      "deref *msm7Message.Message", "deref *type1005.Message", "deref *type1006.Message"] ∧
-    Gen.display_handler_PrepareForDisplay = some [] ∧ Gen.display_handler_Analyse = some [] ∧
-    Gen.display_handler_Handler_getStartTimeDisplay = some [] ∧
-    -- shifts by a non-negative loop counter; `range` loops over the header's own slices
-    Gen.display_header_Header_String = some ["arith header.SatelliteMask>>s", "arith header.SignalMask>>s",
-      "index header.Cells[i]", "index header.Cells[i][j]"] ∧
-    -- `message.Header` is set by the decoder; `range` loops over the message's own slices
-    Gen.display_msg4_Message_String = some ["chain message.Header.String"] ∧
-    Gen.display_msg4_Message_DisplaySatelliteCells = some ["index message.Satellites[i]"] ∧
-    Gen.display_msg4_Message_DisplaySignalCells = some ["index message.Signals[i]", "index message.Signals[i][j]"] ∧
-    Gen.display_msg7_Message_String = some ["chain message.Header.String"] ∧
-    Gen.display_msg7_Message_DisplaySatelliteCells = some ["index message.Satellites[i]"] ∧
-    Gen.display_msg7_Message_DisplaySignalCells = some ["index message.Signals[i]", "index message.Signals[i][j]"] ∧
-    Gen.display_sat4_Cell_String = some [] ∧ Gen.display_sat7_Cell_String = some [] ∧
-    -- `cell.Satellite` is never nil in a decoded message (`decoded_pointers_exist`)
-    Gen.display_sig4_Cell_String = some ["chain cell.Satellite.ID", "chain cell.Satellite.RangeWholeMillis"] ∧
-    Gen.display_sig7_Cell_String = some ["chain cell.Satellite.ID", "chain cell.Satellite.PhaseRangeRate",
-      "chain cell.Satellite.RangeWholeMillis"] ∧
-    Gen.display_sig4_Cell_GetAggregateRange = some ["chain cell.Satellite.RangeFractionalMillis", "chain cell.Satellite.RangeWholeMillis"] ∧
-    Gen.display_sig4_Cell_GetAggregatePhaseRange = some ["chain cell.Satellite.RangeFractionalMillis", "chain cell.Satellite.RangeWholeMillis"] ∧
-    Gen.display_sig7_Cell_GetAggregateRange = some ["chain cell.Satellite.RangeFractionalMillis", "chain cell.Satellite.RangeWholeMillis"] ∧
-    Gen.display_sig7_Cell_GetAggregatePhaseRange = some ["chain cell.Satellite.RangeFractionalMillis", "chain cell.Satellite.RangeWholeMillis"] ∧
-    Gen.display_sig7_Cell_GetAggregatePhaseRangeRate = some ["chain cell.Satellite.PhaseRangeRate"] ∧
-    -- floating-point divisions (never panic)
-    Gen.display_sig4_Cell_PhaseRange = some ["arith phaseRangeLMS/cell.Wavelength"] ∧
-    Gen.display_sig7_Cell_PhaseRange = some ["arith phaseRangeLMS/cell.Wavelength"] ∧
-    Gen.display_sig7_Cell_PhaseRangeRateDoppler = some ["arith phaseRangeRateMetresPerSecond/cell.Wavelength"] ∧
-    Gen.display_sig4_Cell_RangeInMetres = some [] ∧ Gen.display_sig7_Cell_RangeInMetres = some [] ∧
-    Gen.display_sig7_Cell_PhaseRangeRate = some [] ∧
-    Gen.display_t1005_Message_String = some [] ∧ Gen.display_t1006_Message_String = some [] := by
-  repeat' constructor
-  all_goals decide
-
-/-- Tie T1: the guards' constants. -/
-theorem tie_guards :
-    Gen.header_minBitsInHeader = 169 ∧ Gen.header_maxLengthOfCellMask = 64 ∧
-    Gen.sat4_CellLengthInBits = 18 ∧ Gen.sat7_CellLengthInBits = 36 ∧
-    Gen.sig4_GetSignalCells_bitsPerCell = 48 ∧ Gen.sig7_bitsPerCell = 80 ∧
-    Gen.utils_CRCLengthBits = 24 ∧ Gen.utils_LeaderLengthBits = 24 ∧
-    Gen.sig4_numSignalCells_source = "header.NumSignalCells" ∧
-    Gen.sig7_numSignalCells_source = "header.NumSignalCells" := by decide
 
 /-! Non-vacuity (tests): the short CRC-valid MSM frame that used to crash `GetMessage`. -/
 example : (getMessage crc24q (newState 0) [0xd3, 0x00, 0x02, 0x43, 0x50, 0x06, 0xa2, 0x7e]).1 =
     .msg { typ := 1077, raw := [0xd3, 0x00, 0x02, 0x43, 0x50, 0x06, 0xa2, 0x7e], err := .tsShort } := by
   decide +kernel
 example : decodeMsm .msm7 [0xd3, 0x00, 0x02, 0x43, 0x50, 0x06, 0xa2, 0x7e] = .err .headerShort := by decide +kernel
-
-/-- Tie T1: guards and loop headers of the modelled code, regenerated from the source. -/
-theorem tie_guards_msm : type_of% Ntrip.Guards.msm := Ntrip.Guards.msm
-
-/-- Tie T1: guards and loop headers of the modelled code, regenerated from the source. -/
-theorem tie_guards_base : type_of% Ntrip.Guards.base := Ntrip.Guards.base
-
-/-- Tie T1: guards and loop headers of the modelled code, regenerated from the source. -/
-theorem tie_guards_framing : type_of% Ntrip.Guards.framing := Ntrip.Guards.framing
 
 end Ntrip.C07
